@@ -90,7 +90,7 @@ fn insert_section(b: &[u8], secs: &[(u8, usize, usize)], before: usize, sec: &[u
 pub fn mutate(r: &mut Rng, seed: &[u8]) -> (Vec<u8>, &'static str) {
     let secs = sections(seed);
     let mut b = seed.to_vec();
-    let k = r.weighted(&[8, 12, 6, 6, 5, 5, 5, 4, 4, 4, 4, 4, 3, 3, 3, 2, 5, 0, 2]);
+    let k = r.weighted(&[8, 12, 6, 6, 5, 5, 5, 4, 4, 4, 4, 4, 3, 3, 3, 2, 5, 0, 2, 3]);
     match k {
         0 => {
             if b.len() > 9 {
@@ -256,6 +256,7 @@ pub fn mutate(r: &mut Rng, seed: &[u8]) -> (Vec<u8>, &'static str) {
             (m, "random-after-header")
         }
         16 => inflate_count(r, b),
+        19 => empty_body(r, b),
         18 => {
             // the seed (or an empty component) wrapped into components nested inside each other: parsing recurses per level
             let header: &[u8] = &[0, 0x61, 0x73, 0x6d, 0x0d, 0, 1, 0];
@@ -272,6 +273,69 @@ pub fn mutate(r: &mut Rng, seed: &[u8]) -> (Vec<u8>, &'static str) {
         }
         _ => ((0..r.below(64)).map(|_| r.next() as u8).collect(), "random"),
     }
+}
+
+/// one function body of a module is cut down to its local declarations: a body without a single operator, not even the final `end`
+/// (the code section is rebuilt, so every size field is right)
+fn empty_body(r: &mut Rng, b: Vec<u8>) -> (Vec<u8>, &'static str) {
+    // locate code sections (id 10) at the top level of a module
+    if wasmparser::Parser::is_component(&b) || b.len() < 8 {
+        // a minimal module with one function whose body is only `00` (no locals, no operators)
+        let m: Vec<u8> = vec![0, 0x61, 0x73, 0x6d, 1, 0, 0, 0, 1, 4, 1, 0x60, 0, 0, 3, 2, 1, 0, 10, 3, 1, 1, 0];
+        return (m, "empty-body");
+    }
+    let secs = sections(&b);
+    let Some(code) = secs.iter().find(|s| s.0 == 10) else {
+        let m: Vec<u8> = vec![0, 0x61, 0x73, 0x6d, 1, 0, 0, 0, 1, 4, 1, 0x60, 0, 0, 3, 2, 1, 0, 10, 5, 1, 3, 1, 2, 0x7f];
+        return (m, "empty-body");
+    };
+    // rebuild the code section: the chosen body keeps its locals vector only
+    let (_, sstart, send) = *code;
+    let mut hdr = sstart + 1;
+    while hdr < send && b[hdr] & 0x80 != 0 {
+        hdr += 1;
+    }
+    hdr += 1;
+    let body = &b[hdr..send];
+    let mut rd = wasmparser::BinaryReader::new(body, 0);
+    let Ok(count) = rd.read_var_u32() else { return (b, "empty-body") };
+    let mut entries: Vec<Vec<u8>> = vec![];
+    for _ in 0..count {
+        let Ok(size) = rd.read_var_u32() else { return (b, "empty-body") };
+        let Ok(bytes) = rd.read_bytes(size as usize) else { return (b, "empty-body") };
+        entries.push(bytes.to_vec());
+    }
+    if entries.is_empty() {
+        return (b, "empty-body");
+    }
+    let k = r.below(entries.len());
+    // length of the locals vector of entry k
+    let e = entries[k].clone();
+    let mut er = wasmparser::BinaryReader::new(&e, 0);
+    let mut ok = true;
+    if let Ok(n) = er.read_var_u32() {
+        for _ in 0..n {
+            if er.read_var_u32().is_err() || er.read::<wasmparser::ValType>().is_err() {
+                ok = false;
+                break;
+            }
+        }
+    } else {
+        ok = false;
+    }
+    if !ok {
+        return (b, "empty-body");
+    }
+    entries[k].truncate(er.original_position());
+    let mut new_body = leb(count);
+    for en in &entries {
+        new_body.extend(leb(en.len() as u32));
+        new_body.extend_from_slice(en);
+    }
+    let mut out = b[..sstart].to_vec();
+    out.extend(section(10, &new_body));
+    out.extend_from_slice(&b[send..]);
+    (out, "empty-body")
 }
 
 /// greatest number of components nested inside each other (0: no nested component)
